@@ -178,8 +178,16 @@ def sites(F, crate="bytecode"):
                         idx = op_local(c.args[1]) if len(c.args) > 1 else None
                         if idx is None:
                             continue
-                        yield {"kind": "K2", "fn": f, "bb": bi, "what": "Index on %s" % (t["func"].get("ga") or ["?"])[0][:60], "ops": [idx], "idx": idx,
-                               "span": c.span}
+                        gas = t["func"].get("ga") or []
+                        if any("core::ops::range::RangeFull" in g for g in gas[1:]) or "RangeFull" in f.locals[idx]:
+                            continue            # `v[..]`: the full range never panics
+                        site = {"kind": "K2", "fn": f, "bb": bi, "what": "Index on %s" % (t["func"].get("ga") or ["?"])[0][:60], "ops": [idx], "idx": idx,
+                                "span": c.span}
+                        if "bytecode::variables::primitive::Primitive" in (t["func"].get("ga") or [""])[0]:
+                            # the indexed vector holds program values: its length is the program's to decide (a list the script can shrink or
+                            # leave empty), whatever the origin of the index
+                            site["container"] = "the indexed vector is a program list (its length is program-valued)"
+                        yield site
                     elif "HashMap" in recv:
                         yield {"kind": "K3", "fn": f, "bb": bi, "what": "HashMap index (panics on a missing key)",
                                "ops": [op_local(a) for a in c.args if op_local(a) is not None], "span": c.span}
@@ -199,7 +207,7 @@ def inventory(F):
             why = taint(f, o)
             if why:
                 break
-        s["taint"] = why
+        s["taint"] = why or s.get("container")
         s["guarded"] = bool(why) and s["kind"] in ("K2", "K3") and (len_guarded(f, s["bb"], s.get("idx")) or boundary_guarded(f, s["bb"], s.get("idx")))
         out.append(s)
     return out
@@ -232,12 +240,45 @@ def list_times_int_rejected(F):
         return False
 
 
+def vec_op_named_arms_dead(F):
+    """`vec_op <name> ..` (reverse, mut) is selected by the operand's text; the compiler only ever writes `+<reg>` and `[<idx>]` operands, so the
+    named arms are dead for compiled programs.  Returns the set of names that no compiler emission can spell, or None when that cannot be read."""
+    import opcodes
+    import rules
+    vo = F.fn("bytecode::instruction::implementations::vec_op")
+    if vo is None:
+        return None
+    names = {x[1] for x in rules.string_literals(vo) if x[0] == "str" and x[1].isalpha() and len(x[1]) < 12}
+    firsts = set()
+    n = 0
+    for fn, nm, sp, c in opcodes.instruction_literals(F):
+        if nm != "vec_op":
+            continue
+        n += 1
+        lits = rules.string_literals(fn)
+        fm = [x[1] for x in lits if x[0] == "fmt"]
+        st = [x[1] for x in lits if x[0] == "str" and x[1] not in ("vec_op",) and len(x[1]) <= 2]
+        if not fm and not st:
+            return None
+        for pieces in fm:
+            if pieces and isinstance(pieces[0], str) and pieces[0] and pieces[0] != "{}":
+                firsts.add(pieces[0][0])
+            else:
+                return None
+        for x in st:
+            firsts.add(x[0])
+    if n == 0:
+        return None
+    return {nm for nm in names if nm[0] not in firsts}
+
+
 def run_c17(F, rep, ctx):
     inv = inventory(F)
     rep.floor("C17.panic K1-K3 sites inventoried in crate bytecode", len(inv), 40)
     per_key = {}
     zero_ok = zero_divisor_rejected(F)
     mul_list_rejected = list_times_int_rejected(F)
+    dead_names = vec_op_named_arms_dead(F) or set()
     for s in inv:
         f = s["fn"]
         top = re.sub(r"::\{closure#\d+\}", "", f.path)
@@ -246,6 +287,24 @@ def run_c17(F, rep, ctx):
                    "ok", "decided by evaluating the operator with a zero divisor payload (same evaluation as C05.zero-divisor)", s["span"], fn=f.path,
                    key="C17.panic|guarded|%s|%s" % (mir.short(top), s["what"]))
             continue
+        if top.endswith("implementations::vec_op") and s.get("container") and dead_names:
+            # is the site inside an arm selected by one of the dead names?
+            import rules as _rules
+            arm_ok = False
+            for nm in dead_names:
+                for c2 in f.calls():
+                    if c2.target is None or not any(_rules.literal_of(f, a) == nm or (isinstance(_rules.literal_of(f, a), list) and ("str", nm) in _rules.literal_of(f, a)) for a in c2.args):
+                        continue
+                    der = f.derived([c2.dst["l"]])
+                    sws = [x for x in _rules.bool_switches(f, der) if x[3] is not None]
+                    removed = {(bb, (t_t if pol else f_t)) for bb, t_t, f_t, pol in sws}
+                    if sws and s["bb"] not in f.reachable(0, removed_edges=removed):
+                        arm_ok = True
+            if arm_ok:
+                rep.ob("C17.panic", "%s in %s: not reachable from a compiled program" % (s["what"], mir.short(f.path)), "exempt",
+                       "the arm is selected by the operand text %s; the compiler writes only `+<reg>` and `[<idx>]` operands for vec_op" % sorted(dead_names),
+                       s["span"], fn=f.path, key="C17.panic|unreachable|%s|%s" % (mir.short(top), s["what"]))
+                continue
         if "repeat_vec" in top and mul_list_rejected:
             rep.ob("C17.panic", "%s in %s: not reachable from a type-checked program" % (s["what"], mir.short(f.path)), "exempt",
                    "the type checker rejects list * int (TypeLayout::get_output_type(Multiply, list, int) is None), so repeat_vec is dead for compiled programs",
